@@ -239,6 +239,17 @@ def fault_candidates(b: Board, observer=None):
             # out of turn, a card the seat does hold
             for c in sorted(b.hands[s])[:1] + sorted(b.hands[s])[-1:]:
                 out.append((c, s, 'out-of-turn play of a held card'))
+    # out of turn AND already played: the seat that played last offers the same card again (a retransmitted message),
+    # and the seat that opened the play offers its opening lead again
+    if played and not over:
+        pm = P.Play(m.declarer, m.strain)
+        who = []
+        for c in played:
+            who.append(pm.turn)
+            pm.play(c)
+        for idx in {len(played) - 1, 0}:
+            if who[idx] != turn:
+                out.append((played[idx], who[idx], 'out-of-turn repeat of a card that seat already played'))
     known = (lambda s: True) if observer is None else (lambda s: s == observer or (s == m.dummy and len(played) >= 1 and observer != m.dummy) or s == observer)
     if known(turn):
         others = sorted(c for s in range(4) if s != turn for c in b.hands[s])
